@@ -216,6 +216,55 @@ def check_case(ctx, r):
     return True
 
 
+def check_component_in_dependency_head(ctx, rng, ids):
+    """Components inside the head= content of a dependency: the document shows their expansions and reports the dependencies
+    the expansions carry, exactly as if the expansions had been written there."""
+    inner = {"k": "dep", "name": "icons" + str(rng.randrange(3)), "version": "2.%d" % rng.randrange(3), "stylesheet": [{"href": "icons.css"}]}
+    payload = [gen.TAG("link", inner, ws=True, attrs=[["rel", {"t": "str", "s": "icon"}], ["href", {"t": "str", "s": ids.next("h") + ".ico"}]])]
+    if rng.random() < 0.5:
+        payload.append(gen.TAG("meta", ws=True, attrs=[["name", {"t": "str", "s": ids.next("m")}]]))
+    ret = "one" if len(payload) == 1 and rng.random() < 0.5 else "list"
+    # (the component is also self-rendering: the library asks a dependency's head content for its markup when it lists the
+    # dependency, which a component that can only be expanded refuses)
+    comp = rng.choice([{"k": "tfobj", "ret": ret, "c": payload, "s": "<!-- displayed on its own -->"},
+                       {"k": "tfobj", "ret": "list", "c": [{"k": "tf", "ret": ret, "c": payload}], "s": "<!-- displayed on its own -->"}])
+    head = [comp, gen.TAG("meta", ws=True, attrs=[["name", {"t": "str", "s": "m"}]])]
+    if rng.random() < 0.5:
+        head.reverse()
+
+    def doc(head_):
+        outer = {"k": "dep", "name": "outer", "version": "1.0", "head": head_}
+        body = gen.TAG("div", {"k": "text", "s": "x"}, outer)
+        root = rng_choice(body)
+        return ht.HTMLDocument(root)
+
+    shape = rng.randrange(3)
+
+    def rng_choice(body):
+        b = gen.build(body)
+        return b if shape == 0 else ht.tags.body(b) if shape == 1 else ht.tags.html(ht.tags.head(ht.tags.title("t")), ht.tags.body(b))
+
+    expanded = []
+    for c in head:
+        expanded.extend(expand(c))
+    wit = {"head": head, "root_shape": shape}
+    got = doc(head).render()
+    want = doc(expanded).render()
+    ctx.count("oracle.component_in_dependency_head")
+    if got["html"] != want["html"]:
+        ctx.violation("document-expansion-differs", "a component inside a dependency's head content is not rendered as its expansion", dict(wit, got=got["html"][:1200], want=want["html"][:1200]))
+        return False
+    names = lambda r_: [(d.name, str(d.version)) for d in r_["dependencies"]]
+    if names(got) != names(want):
+        ctx.violation("expansion-deps-differ", "dependencies carried by the expansion of a component inside a dependency's head content are not reported as for the expanded tree",
+                      dict(wit, got=names(got), want=names(want)))
+        return False
+    if inner["name"] not in [n for n, _ in names(got)]:
+        ctx.violation("expansion-deps-differ", "the dependency carried by the expansion of a component inside a dependency's head content is not reported", dict(wit, got=names(got)))
+        return False
+    return True
+
+
 def check_retry(ctx, r):
     """A failure inside a nested tagify() must not poison later renderings of the same tree."""
     wit = {"recipe": r, "scenario": "tagify fails once, then the tree is rendered again"}
@@ -410,6 +459,9 @@ def _run(ctx):
         tree = wrap(inner)
         ctx.guard(check_retry, ctx, tree, witness={"recipe": tree})
         ctx.case(("retry", tree), nontrivial=True)
+    for i in range(ctx.budget(60, 6000)):
+        ids = lg.Ids()
+        ctx.guard(check_component_in_dependency_head, ctx, rng, ids, witness={"what": "component in dependency head", "i": i})
     ex = gen.TAG("div", {"k": "text", "s": "a"}, {"k": "tf", "ret": "list", "c": [{"k": "text", "s": "x"}, gen.TAG("b", ws=False)]}, {"k": "tf", "ret": "list", "c": []})
     ctx.sample({"recipe": ex, "output": gen.build(ex).render()["html"]})
     # 2. random trees
